@@ -16,9 +16,9 @@ Definition ref_cut (l : S.link) (s : list N) (fi : F.fin) : list F.frame * F.end
   | S.LRtu => Framing.ref_rtu_frames Framing.Requests s fi
   end.
 
-Definition ref_server_system (l : S.link) (a : S.auth) (units : list (N * St)) (s : list N) (fi : F.fin) :=
+Definition ref_server_system (l : S.link) (a : S.auth) (units : S.ucfg St) (s : list N) (fi : F.fin) :=
   let r := ref_cut l s fi in
   (Modbus.ref_session H l a units (map SystemServer.to_server_frame (fst r)), snd r).
-Definition ref_server_system_result (l : S.link) (a : S.auth) (units : list (N * St)) (s : list N) (fi : F.fin) :=
+Definition ref_server_system_result (l : S.link) (a : S.auth) (units : S.ucfg St) (s : list N) (fi : F.fin) :=
   fst (ref_server_system l a units s fi).
 End Sys.
